@@ -3,7 +3,9 @@ package main
 import (
 	"fmt"
 	"go/types"
+	"os"
 	"regexp"
+	"runtime/debug"
 	"sort"
 	"strings"
 	"sync"
@@ -23,16 +25,16 @@ type NDValue struct {
 }
 
 type Violation struct {
-	Label   string    `json:"label"`
-	Site    string    `json:"site"`
-	Entry   string    `json:"entry"`
-	Arg     int       `json:"arg"`
-	Values  []NDValue `json:"values"`
-	Trail   []int     `json:"-"`
-	Count   int       `json:"count"`
-	Note    string    `json:"note,omitempty"`
-	Script  string    `json:"-"`
-	Threads bool      `json:"threads,omitempty"`
+	Label   string       `json:"label"`
+	Site    string       `json:"site"`
+	Entry   string       `json:"entry"`
+	Arg     int          `json:"arg"`
+	Values  []NDValue    `json:"values"`
+	Trail   []int        `json:"-"`
+	Count   int          `json:"count"`
+	Note    string       `json:"note,omitempty"`
+	Script  string       `json:"-"`
+	Threads bool         `json:"threads,omitempty"`
 	Alt     []*Violation `json:"-"` // further witnesses of the same assertion with other discrete choices
 	sig     string
 }
@@ -448,6 +450,12 @@ func (m *Machine) runPath(harness *ssa.Function, prefix []int, arg int) {
 				// path is inconclusive, the process goes on
 				outcome = "engine"
 				errMsg = fmt.Sprint("internal executor error: ", r)
+				if m.curFn != nil {
+					errMsg += " (in " + fnName(m.curFn) + ")"
+				}
+				if os.Getenv("VERIF_DEBUG_STACK") != "" {
+					fmt.Fprintf(os.Stderr, "%s\n%s\n", errMsg, debug.Stack())
+				}
 				if len(errMsg) > 200 {
 					errMsg = errMsg[:200]
 				}
@@ -618,7 +626,8 @@ func (ex *Explorer) runInits() {
 // code reads (unicode/utf8); their globals become read-only values shared by all paths.
 func (ex *Explorer) runDepInits() {
 	for _, p := range ex.prog.AllPackages() {
-		if p.Pkg.Path() != "unicode/utf8" {
+		// packages whose initialisers only fill tables (utf8.first/acceptRanges, strings.asciiSpace, ...)
+		if pp := p.Pkg.Path(); pp != "unicode/utf8" && pp != "strings" && pp != "bytes" {
 			continue
 		}
 		init := p.Func("init")
